@@ -1286,8 +1286,14 @@ func (s *State) evalIntegerInfixExpression(operator token.Type, leftVal, rightVa
 		}
 		return object.Integer{Value: leftVal % rightVal}
 	case token.LEFTSHIFT:
+		if rightVal < 0 {
+			return s.NewError("negative shift count")
+		}
 		return object.Integer{Value: leftVal << rightVal}
 	case token.RIGHTSHIFT:
+		if rightVal < 0 {
+			return s.NewError("negative shift count")
+		}
 		return object.Integer{Value: int64(uint64(leftVal) >> rightVal)} //nolint:gosec // we want to be able to shift the hight bit.
 	case token.BITAND:
 		return object.Integer{Value: leftVal & rightVal}
